@@ -28,6 +28,18 @@ CHECKS = {
 
 NOT_APPLICABLE = []
 
+CHECKS['C06'] = (
+    'bounded exploration of real engine runs on minidb where the duplicated '
+    'message, its position and redelivery point and the action outcomes are '
+    'solver variables; symbolic execution of the executor\'s redelivery '
+    'logic over symbolic flags and outcome kinds',
+    'With any one engine message or scheduler job delivered twice (thorough: '
+    'three times) the run ends as the reference says, no action is '
+    'dispatched twice, no second result accepted, no task created twice; a '
+    'start request with an id is idempotent; the executor never runs an '
+    'unsafe redelivered action and reports at most one result.',
+    '§3 C06')
+
 CHECKS['C12'] = (
     'bounded exploration of real engine runs on minidb: a first run with '
     'symbolic outcomes until the workflow is ERROR, then rerun / skip of a '
